@@ -9,7 +9,7 @@ from ..util import Info, Raised, expect, expect_eq, impl
 ID = "C11"
 ATHERIS = True  # thorough tier: coverage-guided second engine over the same strategy/run_case
 LEVEL = "exploration"
-BUDGET = {"quick": 24000, "thorough": 1500000}
+BUDGET = {"quick": 24000, "thorough": 1000000}
 RULE = (
     "case = sequence of calls on a fresh fog: explore(p, segs) with p = i-th unexplored "
     "prefix or an arbitrary (possibly unknown) prefix and segs shaped as leaf [], "
@@ -104,6 +104,7 @@ def _valid_segs(segs):
 
 
 def _check_fog(fog, model, what):
+    expect("returns-a-fog", isinstance(fog, HexaryTrieFog), lambda: f"got {fog!r} instead of a HexaryTrieFog {what}")
     got = _prefixes(fog)
     expect_eq("fog-equals-replacement-model", got, set(model), f"unexplored prefixes {what}")
     ms = sorted(model)
@@ -129,6 +130,7 @@ def _queries(fog, model, q, info):
         expect("PerfectVisibility-iff-empty", isinstance(r, Raised), f"nearest_unknown({q}) on a complete fog returned {r!r}")
     else:
         expect("PerfectVisibility-iff-empty", not isinstance(r, Raised), f"nearest_unknown({q}) raised on a non-empty fog")
+        expect("nearest-is-member", isinstance(r, tuple), lambda: f"nearest_unknown({q}) returned {r!r}")
         got = tuple(int(x) for x in r)
         expect("nearest-is-member", got in model, f"nearest_unknown({q}) = {got} is not unexplored")
         if containing:
@@ -146,10 +148,10 @@ def _queries(fog, model, q, info):
         expect("PerfectVisibility-iff-empty", isinstance(r, Raised) and isinstance(r.exc, PerfectVisibility),
                f"nearest_right({q}) on a complete fog gave {r!r}")
     elif containing:
-        expect("nearest_right-prefers-containing", not isinstance(r, Raised)
+        expect("nearest_right-prefers-containing", isinstance(r, tuple)
                and tuple(int(x) for x in r) == containing[0], f"nearest_right({q}) gave {r!r}, expected {containing[0]}")
     elif succ:
-        expect("nearest_right-is-successor", not isinstance(r, Raised)
+        expect("nearest_right-is-successor", isinstance(r, tuple)
                and tuple(int(x) for x in r) == succ[0], f"nearest_right({q}) gave {r!r}, expected {succ[0]}")
     else:
         expect("FullDirectionalVisibility-iff-nothing-right", isinstance(r, Raised)
